@@ -226,6 +226,32 @@ pub fn bias_search(rng: &mut crate::Rng, budget: u64) -> Result<u64, (Vec<u8>, S
     let glo_sigs: [(u8, char); 4] = [(1, 'C'), (1, 'P'), (2, 'C'), (2, 'P')];
     let mut n = 0u64;
     let grid = |x: f32| -> i32 { (x / 0.01).round() as i32 };
+    // ---- one satellite with k entries (signals repeat): every count around the 5-bit field limit and around 256 (u8 wrap), up to the list capacity
+    for k in [0usize, 1, 31, 32, 33, 63, 64, 255, 256, 257, 287, 288, 289, 390] {
+        for which in 0..2 {
+            n += 1;
+            let msg = if which == 0 {
+                let mut m = Msg1059T::default();
+                for i in 0..k { m.biases.push(Msg1059CodeBias { satellite_id: 9, signal_id: GpsSigId::new(gps_sigs[i % 12].0, gps_sigs[i % 12].1), bias_m: (i % 100) as f32 * 0.01 }); }
+                Message::Msg1059(m)
+            } else {
+                let mut m = Msg1065T::default();
+                for i in 0..k { m.biases.push(Msg1065CodeBias { satellite_id: 9, signal_id: GloSigId::new(glo_sigs[i % 4].0, glo_sigs[i % 4].1), bias_m: (i % 100) as f32 * 0.01 }); }
+                Message::Msg1065(m)
+            };
+            let r = std::panic::catch_unwind(move || { let mut b = MessageBuilder::new(); b.build_message(&msg).map(|x| x.to_vec()).map_err(|e| format!("{:?}", e)) });
+            match r {
+                Err(_) => return Err((vec![], format!("{} encode panicked with {} entries for one satellite", 1059 + 6 * which, k))),
+                Ok(Err(_)) => {}
+                Ok(Ok(f)) => {
+                    let got = match std::panic::catch_unwind(|| MessageFrame::new(&f).map(|x| x.get_message()).ok()) {
+                        Ok(Some(Message::Msg1059(b))) => b.biases.len(), Ok(Some(Message::Msg1065(b))) => b.biases.len(),
+                        _ => return Err((f, "frame emitted by the bias-list encoder does not decode to the same message type".into())) };
+                    if got != k { return Err((f, format!("{}: {} entries of one satellite accepted by the encoder, {} decoded: entries silently lost (C16)", 1059 + 6 * which, k, got))); }
+                }
+            }
+        }
+    }
     while n < budget {
         n += 1;
         // ---- 1059
